@@ -58,7 +58,7 @@ pub enum Op {
     },
     Collect { caller: u8 },
     /// adversarial: the direct `WithdrawLiquidity {}` message (token-factory LP pools) with one
-    /// native coin of denom uaaa / ubbb / uccc attached, sent to this cw20-LP pool
+    /// native coin of denom uaaa / uaaab / uccc attached, sent to this cw20-LP pool
     WithdrawDirect { user: u8, denom: u8, amount: Uint128 },
     /// adversarial: a cw20 Receive hook from the wrong place (pools::PairWorld::forged_hook)
     ForgedHook { user: u8, via: u8, swap_hook: bool, amount: Uint128 },
@@ -402,7 +402,7 @@ impl Check for CpPoolHistory {
                 }
                 Op::WithdrawDirect { user, denom, amount } => {
                     let usr = pw.user(*user);
-                    let d = ["uaaa", "ubbb", "uccc"][(*denom % 3) as usize];
+                    let d = ["uaaa", "uaaab", "uccc"][(*denom % 3) as usize];
                     let b = [pw.w.bal(&pw.infos[0], &usr), pw.w.bal(&pw.infos[1], &usr)];
                     let lp_b = pw.lp_balance(&usr);
                     let r = pw.withdraw_direct(&usr, d, amount.u128());
